@@ -164,7 +164,7 @@ def parse_output(text):
     return res, last
 
 
-SKIP = ("Lx", "Lk", "A+", "A-", "T", "END", "P", "OpX", "CL", "F>", "Lc!", "O!", "Sn", "Sc")
+SKIP = ("Lx", "Lk", "A+", "A-", "T", "END", "P", "OpX", "CL", "F>", "Lc!", "O!", "Sn", "Sc", "Z")
 
 
 _TAG = re.compile(r" tag=\d+")
